@@ -6,43 +6,76 @@ import Bng.Model.Nat
 namespace Bng.Cgnat
 open Bng AMap
 
-/-- the configurations the theorems speak about: a positive block size and a range of real ports -/
-def ValidCfg (c : Cfg) : Prop := 1 ≤ c.pps ∧ c.rangeEnd ≤ 65535
+/-- the configurations the theorems speak about: a positive block size, a range of real ports, and the
+    number of ports the code computed is not more than the range holds.  Every configuration that
+    NewManager accepts satisfies it (`newManager_valid`). -/
+def ValidCfg (c : Cfg) : Prop :=
+  1 ≤ c.pps ∧ c.rangeEnd ≤ 65535 ∧ c.totalPorts ≤ (c.rangeEnd : Int) - (c.rangeStart : Int) + 1
+
+theorem newManager_valid {pps rs re : Int} {logOn bulk : Bool} {c : Cfg}
+    (h : newManager pps rs re logOn bulk = some c) : ValidCfg c := by
+  unfold newManager at h
+  simp only at h
+  generalize (if pps = 0 then (1024 : Int) else pps) = p at h
+  generalize (if rs = 0 then (1024 : Int) else rs) = r at h
+  generalize (if re = 0 then (65535 : Int) else re) = e at h
+  by_cases h1 : r < 1 ∨ e > 65535
+  · simp [h1] at h
+  · by_cases h2 : p < 1 ∨ p > 65535
+    · simp [h1, h2] at h
+    · simp only [h1, h2, if_false, Option.some.injEq] at h
+      subst h
+      unfold ValidCfg
+      simp only
+      omega
+
+theorem mkCfg_valid (pps rs re : Nat) (logOn bulk : Bool) (h : (if re = 0 then 65535 else re) ≤ 65535) :
+    ValidCfg (mkCfg pps rs re logOn bulk) := by
+  unfold ValidCfg mkCfg
+  simp only
+  refine ⟨?_, h, Int.le_refl _⟩
+  split <;> omega
 
 /-- number of blocks per public address -/
 def slotsOf (c : Cfg) : Nat := c.maxSubs.toNat
 
-theorem slots_mul_le (c : Cfg) (hp : 1 ≤ c.pps) : slotsOf c * c.pps ≤ c.rangeEnd + 1 - c.rangeStart := by
+theorem slots_mul_le (c : Cfg) (hv : ValidCfg c) : slotsOf c * c.pps ≤ c.rangeEnd + 1 - c.rangeStart := by
+  have hp := hv.1
+  have ht := hv.2.2
   unfold slotsOf Cfg.maxSubs
+  have hpos : (0 : Int) < (c.pps : Int) := by omega
   by_cases h : c.rangeStart ≤ c.rangeEnd + 1
   · have e : (c.rangeEnd : Int) - (c.rangeStart : Int) + 1 = ((c.rangeEnd + 1 - c.rangeStart : Nat) : Int) := by omega
-    rw [e, Int.tdiv_eq_ediv_of_nonneg (by omega)]
-    have : ((c.rangeEnd + 1 - c.rangeStart : Nat) : Int) / (c.pps : Int)
+    have hmono := Int.tdiv_le_tdiv hpos ht
+    rw [e, Int.tdiv_eq_ediv_of_nonneg (Int.natCast_nonneg _)] at hmono
+    have hdiv : ((c.rangeEnd + 1 - c.rangeStart : Nat) : Int) / (c.pps : Int)
         = (((c.rangeEnd + 1 - c.rangeStart) / c.pps : Nat) : Int) := by
       simp
-    rw [this, Int.toNat_natCast]
-    exact Nat.div_mul_le_self _ _
-  · have hneg : (c.rangeEnd : Int) - (c.rangeStart : Int) + 1 < 0 := by omega
-    have : ((c.rangeEnd : Int) - (c.rangeStart : Int) + 1).tdiv (c.pps : Int) ≤ 0 := by
-      have hpos : (0 : Int) < (c.pps : Int) := by omega
+    rw [hdiv] at hmono
+    have hle : (c.totalPorts.tdiv (c.pps : Int)).toNat ≤ (c.rangeEnd + 1 - c.rangeStart) / c.pps :=
+      Int.toNat_le.mpr hmono
+    exact Nat.le_trans (Nat.mul_le_mul_right _ hle) (Nat.div_mul_le_self _ _)
+  · have hneg : c.totalPorts < 0 := by omega
+    have : c.totalPorts.tdiv (c.pps : Int) ≤ 0 := by
       have := Int.tdiv_le_tdiv hpos (Int.le_of_lt hneg)
       simpa using this
-    have : (((c.rangeEnd : Int) - (c.rangeStart : Int) + 1).tdiv (c.pps : Int)).toNat = 0 := by omega
+    have : (c.totalPorts.tdiv (c.pps : Int)).toNat = 0 := by omega
     rw [this]; omega
 
 /-- a block of a valid slot ends inside the range -/
-theorem slot_end_le (c : Cfg) (hp : 1 ≤ c.pps) {sl : Nat} (h : sl < slotsOf c) :
+theorem slot_end_le (c : Cfg) (hv : ValidCfg c) {sl : Nat} (h : sl < slotsOf c) :
     c.rangeStart + (sl + 1) * c.pps ≤ c.rangeEnd + 1 := by
-  have h1 := slots_mul_le c hp
+  have hp := hv.1
+  have h1 := slots_mul_le c hv
   have h2 : (sl + 1) * c.pps ≤ slotsOf c * c.pps := Nat.mul_le_mul_right _ h
   have h3 : 0 < (sl + 1) * c.pps := Nat.mul_pos (by omega) (by omega)
   omega
 
 theorem blockStart_toNat (c : Cfg) (hv : ValidCfg c) {sl : Nat} (h : sl < slotsOf c) :
     (blockStart c sl).toNat = c.rangeStart + sl * c.pps := by
-  have h1 := slot_end_le c hv.1 h
+  have h1 := slot_end_le c hv h
   have e : (sl + 1) * c.pps = sl * c.pps + c.pps := by rw [Nat.add_mul, Nat.one_mul]
-  have := hv.1; have := hv.2
+  have := hv.1; have := hv.2.1
   unfold blockStart
   rw [UInt16.toNat_ofNat']
   apply Nat.mod_eq_of_lt
@@ -50,10 +83,10 @@ theorem blockStart_toNat (c : Cfg) (hv : ValidCfg c) {sl : Nat} (h : sl < slotsO
 
 theorem blockEnd_toNat (c : Cfg) (hv : ValidCfg c) {sl : Nat} (h : sl < slotsOf c) :
     (blockEnd c (blockStart c sl)).toNat = c.rangeStart + sl * c.pps + c.pps - 1 := by
-  have h1 := slot_end_le c hv.1 h
+  have h1 := slot_end_le c hv h
   have e : (sl + 1) * c.pps = sl * c.pps + c.pps := by rw [Nat.add_mul, Nat.one_mul]
   have hs := blockStart_toNat c hv h
-  have := hv.1; have := hv.2
+  have := hv.1; have := hv.2.1
   unfold blockEnd
   rw [UInt16.toNat_sub, UInt16.toNat_add, UInt16.toNat_ofNat', hs, UInt16.toNat_one]
   generalize sl * c.pps = x at *
